@@ -197,10 +197,9 @@ theorem codegen_cfg_ok (ts : List (Tmpl × Option Bool)) (k : Nat) :
 /-- a set of templates (each with its `include_error_handler` setting) compiled, crash point `k` -/
 def progOf (ts : List (Tmpl × Option Bool)) (k : Nat) : Cfg := ⟨ts.map fun p => codegenModule p.1 p.2, k⟩
 
-/-- shape of the runtime stacks: buffer identities, caller stack, loop stack -/
+/-- shape of the runtime stacks: buffer identities, caller stack, loop stack, pending caller -/
 def SameStacks (σ σ' : St) : Prop :=
-  σ'.bufs.map (·.1) = σ.bufs.map (·.1) ∧ σ'.frames = σ.frames ∧ σ'.loops = σ.loops ∧
-    (σ'.next = σ.next ∨ σ'.next = [])
+  σ'.bufs.map (·.1) = σ.bufs.map (·.1) ∧ σ'.frames = σ.frames ∧ σ'.loops = σ.loops ∧ σ'.next = σ.next
 
 theorem Bal.same {i top rest σ σ'} (hb : σ.bufs = (i, top) :: rest) (h : Bal i top rest σ σ') : SameStacks σ σ' := by
   obtain ⟨w, hw⟩ := h.bufs
